@@ -376,6 +376,46 @@ theorem file_value_roundtrip {ε : Type} (cfg : EncCfg) (c : Codec) (s : ASchema
   intro g hg
   exact hdecOf g hg
 
+/-! Non-vacuity of `file_value_roundtrip`: three struct values (one with a nil `*[]int32`, which comes
+back as a pointer to the empty slice) written with a `Flush` in between, block size 12, read back with
+the single record budget `27 = readBudget exCodec exDatum`. -/
+
+def exGops : List GoOp := [.encode exVal, .flush, .encode exValPlain, .encode exVal]
+def exHdrV : Bytes := File.mkHeader [[(File.kSchema, [0x22]), (File.kCodec, File.vNull)]] C07.exSync
+def exCfgV : EncCfg := { blockSize := 12, compress := id, sync := C07.exSync, header := exHdrV }
+def exXV : File.Ext GoVal :=
+  { inflate := fun c => some c, unsnappy := fun c => some c, crc := fun _ => 0,
+    build := fun _ => some (C03.recDecoder toyEnv 27 exCodec) }
+
+example : ∃ s' w', encRun exCfgV {} (writtenOps toyEnv 10 exCodec exGops ++ [.flush]) = (s', w', none) ∧ s'.count = 0 ∧ s'.wb = [] ∧
+    File.readFile exXV 9 (fun _ => (none : Option Unit)) w'.accepted =
+      ⟨[exVal, exValPlain, exVal].map (normCodec toyEnv 5 exCodec), .ok⟩ := by
+  have hcf : CodecFor exCodec exSchema :=
+    .record (.cons (.map .intL) (.cons (.unionOne1 (.pointer .string)) (.cons (.pointer (.array .intI)) .nil))) rfl
+  have hh : File.ValidHeader exXV 9 exCfgV.header
+      { «meta» := File.metaOf [[(File.kSchema, [0x22]), (File.kCodec, File.vNull)]], sync := C07.exSync } .null
+      (C03.recDecoder toyEnv 27 exCodec) := by
+    refine C07.valid_mkHeader exXV _ C07.exSync 9 ?_ (by decide) (by decide) .null _ (by decide) ⟨[0x22], by decide, rfl⟩
+    intro es hes
+    simp only [List.mem_singleton] at hes
+    subst hes
+    refine ⟨by simp, by decide, ?_⟩
+    intro kv hkv
+    simp only [List.mem_cons, List.not_mem_nil, or_false] at hkv
+    rcases hkv with rfl | rfl <;> exact ⟨by decide, by decide⟩
+  exact file_value_roundtrip (ε := Unit) toyEnv exCfgV exCodec exSchema hcf 10 10 5 27 exGops
+    (by
+      intro g hg
+      simp only [exGops, GoOp.values, List.mem_cons, List.not_mem_nil, or_false] at hg
+      rcases hg with rfl | rfl | rfl
+      · exact ⟨exBytes, exDatum, exBytes, by decide +kernel, by rfl, by decide +kernel,
+          by simp [RTOk, exCodec, exVal, FieldsOk, Codec.zero, inRange, Codec.ptrDepth], by decide +kernel⟩
+      · exact ⟨exBytes, exDatum, exBytes, by decide +kernel, by rfl, by decide +kernel,
+          by simp [RTOk, exCodec, exValPlain, FieldsOk, Codec.zero, inRange], by decide +kernel⟩
+      · exact ⟨exBytes, exDatum, exBytes, by decide +kernel, by rfl, by decide +kernel,
+          by simp [RTOk, exCodec, exVal, FieldsOk, Codec.zero, inRange, Codec.ptrDepth], by decide +kernel⟩)
+    hh rfl (fun x => rfl) (by decide +kernel) (by decide) (by decide) (fun _ => none) (fun _ => rfl)
+
 /-- non-vacuity of `value_roundtrip_exact_budget` / `value_roundtrip_spec_budget` -/
 example (rest : Bytes) : read toyEnv 27 exCodec (exBytes ++ rest) (Codec.zero toyEnv exCodec) = .ok (exValPlain, rest) := by
   have hcf : CodecFor exCodec exSchema :=
